@@ -238,7 +238,10 @@ func slbRun() {
 				if ramping {
 					before := effWeights()
 					id, detail := obj.pick(op.Algo, key)
-					after := effWeights()
+					after := before
+					if !obj.dead { // a hung call still holds the balancer lock
+						after = effWeights()
+					}
 					lo, hi := make([]int, TraceN), make([]int, TraceN)
 					for i := range lo {
 						lo[i], hi[i] = before[i], after[i]
